@@ -1,7 +1,11 @@
 package rules
 
 import (
+	"go/ast"
+	"go/types"
 	"strings"
+
+	"verif/checker/internal/load"
 
 	"verif/checker/internal/shape"
 	"verif/checker/internal/sym"
@@ -112,5 +116,124 @@ func (c *Ctx) nanKeys(e sym.Expr, into map[string]bool) {
 		c.nanKeys(x.Cond, into)
 		c.nanKeys(x.A, into)
 		c.nanKeys(x.B, into)
+	}
+}
+
+// thresholdWiring: a level the decision compares an indicator value with (BuyAt, SellAt, …) is a
+// configuration value of the strategy. Every constructor of the package stores it as it was
+// given: the field is initialised with a parameter, a named constant or a literal, never with an
+// expression that changes it (a clamp such as math.Min(sellAt, 100) replaces "never sell" by
+// "sell at 100").
+func (c *Ctx) thresholdWiring(r *shape.Result, fi *load.FuncInfo, term sym.Expr) {
+	run := c.Run
+	if r.Recv == nil {
+		return
+	}
+	vars := map[string]bool{}
+	sym.Vars(term, vars)
+	fields := map[string]bool{}
+	for v := range vars {
+		if strings.HasPrefix(v, "cfg:") && !strings.Contains(v, ".") && !strings.Contains(v, "(") {
+			fields[v[4:]] = true
+		}
+	}
+	if len(fields) == 0 {
+		return
+	}
+	recvNamed, _ := r.Recv.Type.(*types.Named)
+	if p, ok := r.Recv.Type.(*types.Pointer); ok {
+		recvNamed, _ = p.Elem().(*types.Named)
+	}
+	if recvNamed == nil {
+		return
+	}
+	info := fi.Pkg.TypesInfo
+	plain := func(e ast.Expr, fd *ast.FuncDecl) bool {
+		e = ast.Unparen(e)
+		if tv, ok := info.Types[e]; ok && tv.Value != nil {
+			return true // constant or literal
+		}
+		if id, ok := e.(*ast.Ident); ok {
+			obj := info.ObjectOf(id)
+			for _, f := range fd.Type.Params.List {
+				for _, nm := range f.Names {
+					if info.ObjectOf(nm) == obj {
+						return true
+					}
+				}
+			}
+		}
+		// conversion of a plain value: float64(p)
+		if call, ok := e.(*ast.CallExpr); ok && len(call.Args) == 1 {
+			if tv, ok := info.Types[call.Fun]; ok && tv.IsType() {
+				return true
+			}
+		}
+		return false
+	}
+	for _, f := range fi.Pkg.Syntax {
+		if strings.HasSuffix(c.P.Fset.Position(f.Pos()).Filename, "_test.go") {
+			continue
+		}
+		for _, d := range f.Decls {
+			fd, ok := d.(*ast.FuncDecl)
+			if !ok || fd.Body == nil || fd.Recv != nil {
+				continue
+			}
+			ast.Inspect(fd.Body, func(n ast.Node) bool {
+				switch x := n.(type) {
+				case *ast.CompositeLit:
+					t := info.TypeOf(x)
+					if t == nil {
+						return true
+					}
+					if nt, ok := t.(*types.Named); !ok || nt.Obj() != recvNamed.Obj() {
+						return true
+					}
+					for _, el := range x.Elts {
+						kv, ok := el.(*ast.KeyValueExpr)
+						if !ok {
+							continue
+						}
+						key, ok := kv.Key.(*ast.Ident)
+						if !ok || !fields[key.Name] {
+							continue
+						}
+						run.Count("threshold_initialisers", 1)
+						good := plain(kv.Value, fd)
+						run.Oblige(good)
+						if !good {
+							c.violate("threshold-wiring", load.RelPkg(fi.Pkg.PkgPath)+"."+fd.Name.Name, key.Name+" = "+short(exprString(kv.Value), 60), kv.Pos(),
+								"the level "+key.Name+", which the decision of "+recvNamed.Obj().Name()+" compares the indicator with, is initialised with "+exprString(kv.Value)+" instead of the value given: the strategy then applies another rule than the one it was configured with")
+						}
+					}
+				case *ast.AssignStmt:
+					for i, l := range x.Lhs {
+						sel, ok := l.(*ast.SelectorExpr)
+						if !ok || !fields[sel.Sel.Name] || i >= len(x.Rhs) {
+							continue
+						}
+						tx := info.TypeOf(sel.X)
+						if tx == nil {
+							continue
+						}
+						if p, ok := tx.(*types.Pointer); ok {
+							tx = p.Elem()
+						}
+						if nt, ok := tx.(*types.Named); !ok || nt.Obj() != recvNamed.Obj() {
+							continue
+						}
+						run.Count("threshold_initialisers", 1)
+						good := plain(x.Rhs[i], fd)
+						run.Oblige(good)
+						if !good {
+							c.violate("threshold-wiring", load.RelPkg(fi.Pkg.PkgPath)+"."+fd.Name.Name, sel.Sel.Name+" = "+short(exprString(x.Rhs[i]), 60), x.Pos(),
+								"the level "+sel.Sel.Name+" of "+recvNamed.Obj().Name()+" is set to "+exprString(x.Rhs[i])+" instead of the value given")
+						}
+					}
+				}
+				return true
+			})
+		}
 	}
 }
